@@ -203,6 +203,9 @@ Prompt == Serialised \/
           \A i \in 1..Len(written) :
             written[i].t - callT[written[i].id] <= CeilDiv(MaxFrame + Cardinality(Writers) * MaxFrame, Rate) + (Cardinality(Writers) + 1) * Gap
 
+(* with the repair nobody overdraws: the bound holds without the "pending" allowance *)
+StrictShadow == \A i \in 1..Len(written) : written[i].shadow >= 0
+
 TypeOK == /\ bucket <= Cap /\ sem \in {0, 1}
           /\ \A w \in Writers : pc[w] \in {"new", "done"} \cup Pending
 
